@@ -334,7 +334,7 @@ void verif_run(verif::Args const& a, verif::Evidence& ev)
               "tail in {none, nth_channel, kth_channel, color_converted<gray8>, color_converted<rgb8>, nth_channel of color_converted<bgr8>} + up to 2 post ops, one write). oracle: dimensions and EVERY pixel against the affine model over identity tags, "
               "shallow write leaves every other root pixel/channel and the root buffer untouched, 7 algebraic identities pixel- and address-wise. "
               "non-trivial: root non-square with both dims >= 2, >= 2 ops, at least one transposing or sub-sampling op; distinct = (cfg, root kind, shape, program, tail, post).";
-    int cases = th ? 400000 : 25000;
+    int cases = th ? 1200000 : 25000;
     verif::rc_search(ev, a, "views", cases, 60, [&] { return gen_case(th); }, run_case, nontrivial, {"cfg", "rk", "w", "h", "prog", "tail", "post"});
     for (int cfg : group_configs()) ev.classify(std::string("cfg_in_group:") + cfg_name(cfg));
 }
